@@ -31,8 +31,9 @@ CHECKS = {
             FAKES + BASE, "2/C03"),
     "C04": ("exploration", "runtime monitoring: multi-handle sequential histories against one shared model",
             "E1+E2",
-            "2-4 objects on one resource plus retained children, adversarial alternation, every mutator incl. "
-            "nested clear/reset; shared plain model; resource probed after every step.",
+            "2-4 objects on one resource (constructed, deep-copied or unpickled) plus retained children, adversarial alternation, "
+            "every mutator incl. nested clear/reset, rejected multi-item mutators, I/O faults; shared plain model; resource "
+            "probed after every step.",
             FAKES + BASE, "2/C04"),
 }
 
@@ -69,7 +70,8 @@ CHECKS.update({
             "process-kill semantics (page cache survives), not power loss. " + BASE, "2/C08"),
     "C09": ("exploration", "runtime monitoring: deterministic line-level scheduler + linearizability checker over recorded histories",
             "E4",
-            "Small writer programs on 6 handle topologies; full single-delay sweep per thread (+ multi-delay/random in thorough); "
+            "Small writer programs on 7 handle topologies (incl. objects constructed inside the threads or while multithreading "
+            "support was off); single-delay sweep per thread, boundary and constructor-delay families (+ multi-delay/random in thorough); "
             "every history checked against the plain model for linearizability, deadlock, leaked locks.",
             SCHED + BASE, "2/C09"),
     "C10": ("fault_enumeration", "runtime monitoring: fault injection (audit-hook EIO, EFBIG, corrupt content, rejected values) + logical lock-state inspection + scheduler deadlock search",
@@ -91,7 +93,8 @@ CHECKS.update({
             FAKES + "server-side limits not emulated. " + BASE, "2/C12"),
     "C13": ("exploration", "runtime monitoring: deterministic scheduler inside buffered contexts + per-file linearizability",
             "E4",
-            "Buffered mutator programs inside buffer_backend(capacity) incl. flush-forcing capacities, 4 topologies, both "
+            "Buffered mutator programs inside buffer_backend(capacity) incl. flush-forcing capacities, 4 topologies (+ thread-local "
+            "objects released before the exit), both "
             "strategies; delay sweeps; per-file serializability after exit, no buffer errors, size back to 0.",
             SCHED + BASE, "2/C13"),
     "C14": ("exploration", "runtime monitoring: deterministic scheduler with reader threads + linearizability incl. reads",
